@@ -3,7 +3,8 @@ C17 — `HelicityModel.rename_symbols` is a consistent renaming of the whole mod
 
 All theorems are about the executable model `Ampverif.Model.C17Rename` (`rename`, modelled line by
 line on `/repo/src/ampform/helicity/__init__.py`; tied to the source on every run by the
-correspondence harness `tools/corr/C17_corr.py`). `v : Variant` carries the two switches of fix
+correspondence harness `tools/corr/C17_corr.py`). A symbol is (name, COMPLETE assumption declaration = ternary
+numeral of `assumptions0`, all True- and False-valued facts). `v : Variant` carries the two switches of fix
 137fbcb and the switch of fix c9b6eb9; theorems that need a fix assume `v.sound` (or the one switch
 they need), and for each unsound switch there is a kernel-checked witness whose input is replayed
 on the real code.
@@ -199,6 +200,55 @@ theorem assumptions_preserved (v : Variant) (m : Model) (ρ : List (Name × Name
   obtain ⟨a₀, ha₀, hr, he, _, _⟩ :=
     freshTarget_spec (v := v) (ρ := ρ) ((mem_ordered v m s).mpr hs) h
   rw [he, hsame a₀ ((mem_ordered v m a₀).mp ha₀) hr]
+
+/-- The same in terms of the facts: `Sym.asm` is the complete declaration `assumptions0`, so the symbol
+made for a single source under a fresh name carries EXACTLY the facts of its source — every fact that is
+declared or derived True, every fact that is declared or derived False (`zero=False`, `real=False`,
+`integer=False`, `positive=False`, `commutative=False`, …), and no other: fact by fact (`factDigit`:
+False / True / absent) and as the list `sorted(assumptions0.items())` (`declFacts`). -/
+theorem renamed_symbol_has_source_declaration (v : Variant) (m : Model) (ρ : List (Name × Name)) (s : Sym)
+    (hs : s ∈ collect v m) (n' : Name) (h : renameOf ρ s.name = some n')
+    (hfresh : ∀ t, t ∈ collect v m → renameOf ρ t.name = none → t.name ≠ n')
+    (honly : ∀ t, t ∈ collect v m → renameOf ρ t.name = some n' → t = s) :
+    (sigma v m ρ s).name = n' ∧ (sigma v m ρ s).asm = s.asm ∧
+      (∀ i, factDigit i (sigma v m ρ s).asm = factDigit i s.asm) ∧
+      declFacts (sigma v m ρ s).asm = declFacts s.asm ∧
+      (∀ i, (i, false) ∈ declFacts s.asm → (i, false) ∈ declFacts (sigma v m ρ s).asm) := by
+  have e := assumptions_preserved v m ρ s hs n' h hfresh (fun t ht hr => by rw [honly t ht hr])
+  rw [e]
+  exact ⟨rfl, rfl, fun _ => rfl, rfl, fun _ hi => hi⟩
+
+/-- Rename, then rename back: when `s ↦ n'` made the symbol `⟨n', s.asm⟩` (theorem above), renaming the
+name `n'` of the new model `m'` back to `s.name` (again fresh, again the only source) gives the original
+symbol `s` — name and complete declaration. -/
+theorem rename_back_restores_symbol (v : Variant) (m' : Model) (s : Sym) (n' : Name)
+    (hs : (⟨n', s.asm⟩ : Sym) ∈ collect v m')
+    (hfresh : ∀ t, t ∈ collect v m' → renameOf [(n', s.name)] t.name = none → t.name ≠ s.name)
+    (honly : ∀ t, t ∈ collect v m' → renameOf [(n', s.name)] t.name = some s.name → t = ⟨n', s.asm⟩) :
+    sigma v m' [(n', s.name)] ⟨n', s.asm⟩ = s := by
+  have h : renameOf [(n', s.name)] (⟨n', s.asm⟩ : Sym).name = some s.name := by
+    simp [renameOf, alookup]
+  exact assumptions_preserved v m' [(n', s.name)] ⟨n', s.asm⟩ hs s.name h hfresh
+    (fun t ht hr => by rw [honly t ht hr])
+
+/-- Witness that the COMPLETE declaration is needed (seeded change C17_5): a rebuild of the new symbol from
+only the facts that hold, `Symbol(new, **{k: v for k, v in assumptions0.items() if v})`, is a different
+symbol for the complex non-zero coupling `g = Symbol("g", zero=False)`: the model (and the unchanged source)
+gives `k` with `g`'s declaration `{commutative: True, zero: False}`, the truthy-only rebuild gives
+`{commutative: True}` — the fact `zero=False` (fact 30) is gone, so "assumptions are preserved" fails and no
+attribute is "the original with the same map applied". Replayed on the real code by
+`tools/props/C17.py: witness_models()` (probe `keepsEveryFact`). -/
+theorem witness_truthy_only_rebuild_loses_facts :
+    sigma Variant.fixed Witness.nonzeroModel [([103], Witness.nK)] Witness.gNonzero
+        = ⟨Witness.nK, Witness.gNonzero.asm⟩ ∧
+      declFacts Witness.gNonzero.asm = [(2, true), (30, false)] ∧
+      (⟨Witness.nK, truthyOnly Witness.gNonzero.asm⟩ : Sym)
+        ≠ sigma Variant.fixed Witness.nonzeroModel [([103], Witness.nK)] Witness.gNonzero ∧
+      declFacts (truthyOnly Witness.gNonzero.asm) = [(2, true)] ∧
+      -- a library-style symbol hides the difference only because SymPy re-derives its False facts from the
+      -- True ones; the keyword arguments themselves differ there too
+      truthyOnly Witness.d.asm ≠ Witness.d.asm := by
+  decide
 
 /-- In general the image carries the requested name and the assumptions of SOME symbol that was sent
 to that name, or it is an existing unrenamed symbol of the requested name. -/
@@ -522,7 +572,7 @@ theorem unknown_names_ignored (v : Variant) (m : Model) (ρ : List (Name × Name
 
 open Witness in
 /-- The fixed variant on the witness model: `m_0 ↦ mgamma` renames the unused parameter … -/
-example : (rename Variant.fixed witnessModel [(nM0, nMgamma)]).paramKeys = [a, d, ⟨nMgamma, 2⟩] := by
+example : (rename Variant.fixed witnessModel [(nM0, nMgamma)]).paramKeys = [a, d, ⟨nMgamma, declNonnegative⟩] := by
   decide
 
 open Witness in
@@ -544,9 +594,25 @@ example : witnessModel.WF ∧ witnessModel.closed ∧
 open Witness in
 /-- … the fixed variant couples `a` (no assumptions) and `g` (non-negative) under the fresh name `k`:
 one symbol, with the assumptions of the first source `a` … -/
-example : sigma Variant.fixed mergeModel [(nA, nK), ([103], nK)] a = ⟨nK, 0⟩ ∧
-    sigma Variant.fixed mergeModel [(nA, nK), ([103], nK)] g = ⟨nK, 0⟩ ∧
-    (rename Variant.fixed mergeModel [(nA, nK), ([103], nK)]).paramKeys = [⟨nK, 0⟩] := by decide
+example : sigma Variant.fixed mergeModel [(nA, nK), ([103], nK)] a = ⟨nK, declNone⟩ ∧
+    sigma Variant.fixed mergeModel [(nA, nK), ([103], nK)] g = ⟨nK, declNone⟩ ∧
+    (rename Variant.fixed mergeModel [(nA, nK), ([103], nK)]).paramKeys = [⟨nK, declNone⟩] := by decide
+
+open Witness in
+/-- … the hypotheses of `renamed_symbol_has_source_declaration` and `rename_back_restores_symbol` hold for the
+non-zero coupling: `g ↦ k ↦ g` gives the parameter keys and the symbols of the expression back … -/
+example : (∀ t, t ∈ collect Variant.fixed nonzeroModel → renameOf [([103], nK)] t.name = some nK → t = gNonzero) ∧
+    (rename Variant.fixed nonzeroModel [([103], nK)]).paramKeys = [a, ⟨nK, declNonzero⟩] ∧
+    (rename Variant.fixed (rename Variant.fixed nonzeroModel [([103], nK)]) [(nK, [103])]).paramKeys
+      = nonzeroModel.paramKeys ∧
+    (rename Variant.fixed (rename Variant.fixed nonzeroModel [([103], nK)]) [(nK, [103])]).expr.syms
+      = nonzeroModel.expr.syms := by decide
+
+open Witness in
+/-- … the declarations of the witness symbols decode to the `assumptions0` of `Symbol("x", real=True)` etc. … -/
+example : declFacts declNone = [(2, true)] ∧
+    declFacts declReal = [(2, true), (3, true), (11, true), (12, true), (13, true), (14, false), (15, false), (28, true)] ∧
+    declFacts noFacts = [] ∧ mkDecl (declFacts declPositive) = declPositive := by decide
 
 open Witness in
 /-- … and merging two kinematic variables (precondition (iii) violated) really drops a definition. -/
